@@ -9,6 +9,7 @@
 -/
 import Mistletoe.Proofs.CoreTotal
 import Mistletoe.Proofs.EmphSpec
+import Mistletoe.Proofs.EmphRefine
 namespace Mistletoe.Props.C06
 open Mistletoe Mistletoe.Core
 
@@ -217,5 +218,48 @@ example : findCoreTokens "a* *b c* **d* e**".toList [] = findCoreTokensNB "a* *b
 
 /-- the invariant of `bottoms` holds at the start of every `process_emphasis` -/
 example (sb : Option Nat) (ds : List Delim) (curr : Nat) : BInv sb ds [] curr := fun e he => by cases he
+
+/-! ### The matches are the specification's
+
+  `Mistletoe/Spec/Emphasis.lean` is an independent formal reading of CommonMark 0.30 section 6.2 and of the appendix
+  "An algorithm for parsing nested emphasis and links" (delimiter runs, left/right flanking with the specification's
+  own definition of Unicode whitespace, the restrictions on `_`, *process emphasis* with `openers_bottom`, the rule of
+  three on original run lengths, strong iff both runs have two or more delimiters left).  It does not import the model
+  of core_tokens.py; 114 of the 131 examples of that section are kernel-evaluated against it in the file itself, and
+  the harness ties it to the Python oracle (harness/spec_emph.py) on every run (unit `spec.emph`). -/
+
+open Mistletoe.EmphRefine in
+/-- **The emphasis structure is the specification's.**  For every inline text `s` without backslash, backquote,
+    brackets, `<` and `&` (`Spec.Emphasis.plain`: the property's "letters, spaces, punctuation and runs of `*` and
+    `_`") that contains none of the eight code points U+000B, U+001C-U+001F, U+0085, U+2028, U+2029 (`StdWs`, see
+    `C06_whitespace_deviation`), and every table of definitions: `find_core_tokens(s, root)` does not fail, returns no
+    code span, and its matches are - one for one, in the order found - the emphasis nodes the specification's algorithm
+    computes for `s`: same opening delimiter `[start, ts)`, same closing delimiter `[te, stop)`, same kind. -/
+theorem C06_emphasis_is_spec_partial (s : Str) (fn : Footnotes.Table) (hp : Spec.Emphasis.plain s = true) (hw : StdWs s) :
+    ∃ ms, findCoreTokens s fn = .ok (ms, []) ∧
+      ms = (Spec.Emphasis.emphasis s).map (toCoreM s) ∧
+      (∀ m ∈ ms, m.kind = .strong ∨ m.kind = .emphasis) ∧
+      ms.map (fun m => (m.start, m.ts, m.te, m.stop, m.kind == .strong)) = Spec.Emphasis.spans s :=
+  Mistletoe.EmphRefine.C06_emphasis_is_spec_partial s fn hp hw
+
+open Mistletoe.EmphRefine in
+/-- without the whitespace hypothesis: `find_core_tokens` is the specification's *process emphasis* run on the
+    specification's delimiter runs classified by mistletoe's own `is_opener` / `is_closer` (`runsM`) -/
+theorem C06_emphasis_is_spec_process (s : Str) (fn : Footnotes.Table) (hp : Spec.Emphasis.plain s = true) :
+    findCoreTokens s fn = .ok ((Spec.Emphasis.process (runsM s)).map (toCoreM s), []) :=
+  findCoreTokens_process s fn hp
+
+open Mistletoe.EmphRefine in
+/-- **Where mistletoe and the specification differ**: `core_tokens.unicode_whitespace` is the specification's Unicode
+    whitespace plus eight code points (control characters and line/paragraph separators) the specification does not
+    count as whitespace; next to a delimiter run they change the flanking: `*␟a*` (U+001F) stays literal in mistletoe
+    and is emphasis in the specification.  Kernel-evaluated on the model and the Lean specification; reproduced on the
+    real code by the harness (`c06.theorem` note).  Control characters are outside the property's alphabet. -/
+theorem C06_whitespace_deviation :
+    (∀ c : Char, uniWs c = (Spec.Emphasis.isUnicodeWhitespace c || deviantWs c)) ∧
+    Spec.Emphasis.plain "*\x1fa*".toList = true ∧ findCoreTokens "*\x1fa*".toList [] = .ok ([], []) ∧
+    Spec.Emphasis.spans "*\x1fa*".toList = [(0, 1, 3, 4, false)] :=
+  ⟨uniWs_eq, not_refines_deviant⟩
+
 
 end Mistletoe.Props.C06
